@@ -681,8 +681,9 @@ class RetransMonitor(WireTracker):
                     exp = "deliver"     # no flag, never answered, or answered but no longer among the W most recent answers
                 else:
                     exp = "dontcare"    # the two ways of counting "most recent answers" disagree
+                self.nseq = getattr(self, "nseq", 0) + 1
                 self.reqs[(sid, f.h.hbh, f.h.e2e)] = {"f": f, "exp": exp, "delivered": 0, "answers": [], "origin": origin, "T": is_T,
-                                                      "ready": self.ready.get(sid, False), "ever": ever}
+                                                      "ready": self.ready.get(sid, False), "ever": ever, "seq": self.nseq}
             elif k == "out":
                 t, sid, f = ev[1], ev[2], ev[3]
                 if not f.h.is_request and f.h.code == 257 and f.result_code == 2001:
@@ -699,9 +700,10 @@ class RetransMonitor(WireTracker):
                     self.hist_app.setdefault(r["origin"], []).append(f.h.e2e)
             elif k == "handle_request":
                 t, app_i, hbh, e2e = ev[1], ev[2], ev[3], ev[4]
-                for key, r in self.reqs.items():
-                    if key[1] == hbh and key[2] == e2e:
-                        r["delivered"] += 1
+                # (the same identifier pair may be in flight on several connections: the delivery belongs to the request that arrived last)
+                cands = [r for key, r in self.reqs.items() if key[1] == hbh and key[2] == e2e]
+                if cands:
+                    max(cands, key=lambda r: r["seq"])["delivered"] += 1
         for key, r in self.reqs.items():
             if r.get("judged") or not r["ready"]:
                 continue
@@ -1296,6 +1298,81 @@ class AnswerRouteMonitor(GroundTruth):
 
     def state(self):
         return (tuple(sorted((e, r["sid"], r["j"], tuple(r["frames"]), tuple(a[0] for a in r["attempts"])) for e, r in self.req.items())),
+                tuple(sorted((sid, g["kind"], g["peer"], g["ce_ok"], g["node_closed"] is not None, g["env_closed"] is not None, g["dpr_in"])
+                             for sid, g in self.c.items())))
+
+
+class AnswerRoutePairMonitor(GroundTruth):
+    """C09 for histories in which requests on different connections may carry the same (hop-by-hop, end-to-end) pair: hop-by-hop ids
+    are unique per connection only and end-to-end ids per origin host only, so two relays may well present the same pair.  Requests
+    are told apart by arrival order and answer frames are attributed to the submission made in the same transition (one
+    ("ans", j) event = one transition run to quiescence)."""
+
+    def __init__(self, sc):
+        super().__init__(sc)
+        self.reqs = []
+        self.by_j = {}
+
+    def step(self):
+        sc = self.sc
+        vs = []
+        frames = []
+        subs = []
+        for ev in self.events():
+            self.absorb(ev)
+            k = ev[0]
+            if k == "in":
+                t, sid, f = ev[1], ev[2], ev[3]
+                if f.h.is_request and f.h.code not in (257, 280, 282):
+                    self.reqs.append({"sid": sid, "ident": f.h.ident(), "j": None, "accepted": False})
+            elif k == "handle_request":
+                t, app_i, hbh, e2e, j = ev[1], ev[2], ev[3], ev[4], ev[5]
+                for r in reversed(self.reqs):
+                    if r["j"] is None and r["ident"][2:] == (hbh, e2e):
+                        r["j"] = j
+                        self.by_j[j] = r
+                        break
+            elif k == "out":
+                t, sid, f = ev[1], ev[2], ev[3]
+                if not f.h.is_request and f.h.code not in (257, 280, 282) and f.result_code in (2001, None):
+                    frames.append((sid, f))
+            elif k == "env_answer":
+                subs.append((ev[2], ev[3]))
+        if len(subs) != 1 or subs[0][0] not in self.by_j:
+            return vs
+        j, res = subs[0]
+        r = self.by_j[j]
+        g = self.conn(r["sid"])
+        fs = next((s.fs for s in sc.socks if s.fs.sid == r["sid"]), None)
+        routable = self.live(g) and g["ce_ok"] and not g["dpr_in"] and not g["dpr_out"] and fs is not None and not fs.closed
+        first = not r["accepted"]
+        twin = any(o is not r and o["ident"] == r["ident"] and o["sid"] != r["sid"] for o in self.reqs)
+        sfx = ":identifier-pair-also-seen-on-another-connection" if twin else ""
+        mine = [sid for sid, f in frames if f.h.ident() == r["ident"]]
+        own = [x for x in mine if x == r["sid"]]
+        other = [x for x in mine if x != r["sid"]]
+        desc = f"request {j} read from socket {r['sid']} ident {r['ident']}: send_answer -> {res}; answer frames in this step on sockets {mine}"
+        if other:
+            vs.append(("answer-route:application-answer-transmitted-on-another-connection" + sfx, desc))
+        if len(own) > 1:
+            vs.append(("answer-route:application-answer-transmitted-twice" + sfx, desc))
+        if routable and first:
+            if res != "sent":
+                vs.append((f"answer-route:submission-fails-although-the-requesting-connection-is-ready:{res}" + sfx, desc))
+            elif not own:
+                vs.append(("answer-route:accepted-answer-never-transmitted-on-the-requesting-connection" + sfx, desc))
+        else:
+            tag = "second-answer" if not first else ("connection-closed" if not self.live(g) or (fs is not None and fs.closed) else "connection-not-ready")
+            if res == "sent":
+                vs.append((f"answer-route:submission-accepted-instead-of-NotRoutable:{tag}:{'and-transmitted' if mine else 'nothing-transmitted'}" + sfx, desc))
+            elif res != "NotRoutable":
+                vs.append((f"answer-route:submission-fails-with-{res}-instead-of-NotRoutable:{tag}" + sfx, desc))
+        if res == "sent":
+            r["accepted"] = True
+        return vs
+
+    def state(self):
+        return (tuple((r["sid"], r["ident"], r["j"], r["accepted"]) for r in self.reqs),
                 tuple(sorted((sid, g["kind"], g["peer"], g["ce_ok"], g["node_closed"] is not None, g["env_closed"] is not None, g["dpr_in"])
                              for sid, g in self.c.items())))
 
